@@ -65,6 +65,11 @@ Basic ==
        << <<>>, <<>> >>, <<>>, TRUE, << PartProg, ReadAllRet >>, << Propagate, Propagate >>),
     Sc("lazy-big-keep", r1(1, 1) \o << IStream(TStdin, Own, 30, 0), IStream(TStdin, Own, 27, 5), IStream(TStdin, Own, 0, 0) >> \o PreItems(Other, 1, 0, 0) \o << IStream(TStdin, Other, 0, 0) >>,
        << <<>>, <<>> >>, <<>>, TRUE, << LazyProg, ReadAllRet >>, << Propagate, Propagate >>),
+    \* Filter requests whose handler returns before it reaches the Data stream: close() has to advance the request itself
+    Sc("filter-none", r1(3, 1) \o stdin \o data \o PreItems(Other, 1, 0, 0) \o << IStream(TStdin, Other, 0, 0) >>, << <<>>, <<>> >>, <<>>, TRUE,
+       << << OpRet(StOk("3")) >>, ReadAllRet >>, << Propagate, Propagate >>),
+    Sc("filter-stdin-part", r1(3, 0) \o stdin \o data, << <<>> >>, <<>>, TRUE, << << OpRead(2), OpRet(StOk("0")) >> >>, << Propagate >>),
+    Sc("filter-stdin-all", r1(3, 1) \o stdin \o data, << <<>> >>, <<>>, FALSE, << << OpReadAll(4), OpFill, OpRet([kind |-> "overloaded", app |-> "0"]) >> >>, << Propagate >>),
     Sc("idle-keep", r1(1, 1) \o stdin, << <<>> >>, <<>>, FALSE, << LazyProg >>, << Propagate >>),
     Sc("filter", r1(3, 0) \o stdin \o data, << <<>> >>, <<>>, FALSE, << FilterProg >>, << Propagate >>),
     Sc("filter-wr", r1(3, 1) \o stdin \o data, << <<>> >>, <<>>, TRUE, << FilterWr >>, << Propagate >>),
